@@ -2,6 +2,7 @@ package main
 
 import (
 	"fmt"
+	"os"
 	"go/types"
 	"sort"
 	"strings"
@@ -84,7 +85,7 @@ func e1events(mod, which string) {
 		return
 	}
 	for i, o := range h.Outs {
-		if i > 3 {
+		if i > 3 && os.Getenv("E1ALL") == "" {
 			break
 		}
 		fmt.Printf("--- outcome kind=%v loop=%s\n", o.Kind, o.Loop)
@@ -94,7 +95,15 @@ func e1events(mod, which string) {
 			if ev.Table != nil {
 				t = ev.Table.Name
 			}
-			fmt.Printf("  %d %s %s.%s loop=%q row=%d\n", j, ev.Kind, t, ev.Method, ev.Loop, len(ev.Row))
+			var ks, cols []string
+			for _, k := range ev.Keys {
+				ks = append(ks, o.St.canon(k))
+			}
+			for c, v := range ev.Row {
+				cols = append(cols, c+"="+o.St.canon(v))
+			}
+			sort.Strings(cols)
+			fmt.Printf("  %d %s %s.%s loop=%q obj=%d keys=[%s] row={%s}\n", j, ev.Kind, t, ev.Method, ev.Loop, ev.RowObj, strings.Join(ks, "; "), strings.Join(cols, ", "))
 		}
 	}
 }
